@@ -429,9 +429,10 @@ class VmSim:
             return FnV(lambda a, k: RefV())
         if name in ('logger', 'logging'):
             return NullObj(None)
-        if name in ('math', 'grammar', 'struct', 'os', 'itertools'):
+        if name in ('math', 'grammar', 'struct', 'os', 'itertools',
+                    'ctypes'):
             return NullObj(UNK)
-        if name in ('format_number', 'get_device_name_by_id',
+        if name in ('get_device_name_by_id',
                     'get_device_op_name_by_id', 'get_device_info_by_id',
                     'PrintUsingFormatter', 'Array', 'CallFrame',
                     'MemorySegment', 'datetime', 'Random'):
